@@ -44,3 +44,81 @@ Proof. vm_compute. reflexivity. Qed.
 Example ex_zero_pivot_upper_accepts :
   match potrf_upper Qc (qc_ops ex_sq) 2 2 ex_Z with PZeroDiv _ k => k = 1%nat | _ => False end.
 Proof. vm_compute. reflexivity. Qed.
+
+(* ---------- pivoted LU: the order / absolute-value laws hold over Qc with qc_abs = Qcabs ---------- *)
+From Coq Require Import Qcabs.
+From SharkV Require Import C02BlkModel C02LUProofs C02CholBlkProofs.
+
+Lemma qc_ltb_true : forall x y, qc_ltb x y = true <-> (x < y)%Qc.
+Proof. intros. unfold qc_ltb. destruct (Qclt_le_dec x y) as [H|H]; split; intros; try congruence. exfalso. exact (Qclt_not_le _ _ H0 H). Qed.
+Lemma qc_ltb_false : forall x y, qc_ltb x y = false <-> (y <= x)%Qc.
+Proof. intros. unfold qc_ltb. destruct (Qclt_le_dec x y) as [H|H]; split; intros; try congruence. exfalso. exact (Qclt_not_le _ _ H H0). Qed.
+Lemma qc_leb_true : forall x y, qc_leb x y = true <-> (x <= y)%Qc.
+Proof. intros. unfold qc_leb. destruct (Qclt_le_dec y x) as [H|H]; split; intros; try congruence. exfalso. exact (Qclt_not_le _ _ H H0). Qed.
+
+Lemma qc_lt_irrefl : forall sq x, fltb (qc_ops sq) x x = false.
+Proof. intros. cbn. apply qc_ltb_false. apply Qcle_refl. Qed.
+Lemma qc_lt_trans : forall sq x y z, fltb (qc_ops sq) y x = false -> fltb (qc_ops sq) y z = true -> fltb (qc_ops sq) z x = false.
+Proof.
+  intros sq x y z H1 H2. cbn in *. apply qc_ltb_false in H1. apply qc_ltb_true in H2. apply qc_ltb_false.
+  apply Qclt_le_weak. eapply Qcle_lt_trans; eauto.
+Qed.
+Lemma qc_lt_le_trans : forall sq x y z, fltb (qc_ops sq) y x = false -> fltb (qc_ops sq) y z = true -> fltb (qc_ops sq) x z = true.
+Proof.
+  intros sq x y z H1 H2. cbn in *. apply qc_ltb_false in H1. apply qc_ltb_true in H2. apply qc_ltb_true.
+  eapply Qcle_lt_trans; eauto.
+Qed.
+Lemma qc_le_of_nlt : forall sq x y, fltb (qc_ops sq) y x = false -> fleb (qc_ops sq) x y = true.
+Proof. intros sq x y H. cbn in *. apply qc_ltb_false in H. apply qc_leb_true. exact H. Qed.
+Lemma qc_le_mul_r : forall sq x y z, fleb (qc_ops sq) x y = true -> fltb (qc_ops sq) (fzero (qc_ops sq)) z = true ->
+  fleb (qc_ops sq) (fmul (qc_ops sq) x z) (fmul (qc_ops sq) y z) = true.
+Proof.
+  intros sq x y z H1 H2. cbn in *. apply qc_leb_true in H1. apply qc_ltb_true in H2. apply qc_leb_true.
+  apply Qcmult_le_compat_r; [exact H1|apply Qclt_le_weak; exact H2].
+Qed.
+Lemma qc_abs_mul : forall sq x y, qc_abs (fmul (qc_ops sq) x y) = fmul (qc_ops sq) (qc_abs x) (qc_abs y).
+Proof. intros. cbn. apply Qcabs_Qcmult. Qed.
+Lemma qc_abs_pos : forall sq x, x <> fzero (qc_ops sq) -> fltb (qc_ops sq) (fzero (qc_ops sq)) (qc_abs x) = true.
+Proof.
+  intros sq x H. cbn in *. apply qc_ltb_true. destruct (Qcle_lt_or_eq _ _ (Qcabs_nonneg x)) as [L|E]; [exact L|].
+  exfalso. apply H. apply Qcabs_null. symmetry. exact E.
+Qed.
+Lemma qc_abs_0 : forall sq, qc_abs (fzero (qc_ops sq)) = fzero (qc_ops sq).
+Proof. intros. cbn. apply Qcabs_pos. apply Qcle_refl. Qed.
+
+(* a run of the blocked getrf (block size 1, so the recursion, the row swaps of both panels, trsm and gemm are used)
+   with row exchanges and a tie: A = [[1,2,0],[-2,1,1],[2,3,1]] *)
+Definition ex_A3 : mat Qc := of_rows Qc (qc_ops ex_sq)
+  [[qc_make 1 1; qc_make 2 1; qc_make 0 1]; [qc_make (-2) 1; qc_make 1 1; qc_make 1 1]; [qc_make 2 1; qc_make 3 1; qc_make 1 1]].
+Definition qc_eq_list (l1 l2 : list Qc) : bool := forallb (fun p => qc_eqb (fst p) (snd p)) (combine l1 l2) && Nat.eqb (length l1) (length l2).
+Example ex_getrf_runs :
+  match getrf Qc (qc_ops ex_sq) qc_abs 1 1 3 ex_A3 with
+  | LUOk _ LU P =>
+      (* first of the two rows with |.| = 2 is taken; then 4 > 5/2 *)
+      tabp 3 P = [1; 2; 2]%nat /\
+      qc_eq_list (concat (to_rows Qc 3 3 LU))
+        [qc_make (-2) 1; qc_make 1 1; qc_make 1 1;
+         qc_make (-1) 1; qc_make 4 1; qc_make 2 1;
+         qc_make (-1) 2; qc_make 5 8; qc_make (-3) 4] = true
+  | _ => False
+  end.
+Proof. vm_compute. split; reflexivity. Qed.
+Example ex_getrf_singular :
+  match getrf Qc (qc_ops ex_sq) qc_abs 1 1 2 (of_rows Qc (qc_ops ex_sq) [[qc_make 1 1; qc_make 2 1]; [qc_make 2 1; qc_make 4 1]]) with
+  | LUFail _ j _ => j = 1%nat
+  | _ => False
+  end.
+Proof. vm_compute. reflexivity. Qed.
+Example ex_lu_solve :
+  match lu_solve_full Qc (qc_ops ex_sq) qc_abs 1 1 RowMajor ex_A3 3 (of_list Qc (qc_ops ex_sq) [qc_make 5 1; qc_make 3 1; qc_make 11 1]) with
+  | Some x => qc_eq_list (tab Qc 3 x) [qc_make 1 1; qc_make 2 1; qc_make 3 1] = true
+  | None => False
+  end.
+Proof. vm_compute. reflexivity. Qed.
+(* the blocked Cholesky recursion with block size 1 on ex_M *)
+Example ex_potrf_rec_runs :
+  match potrf_rec Qc (qc_ops ex_sq) 1 1 2 2 0 2 ex_M with
+  | BOk _ L => (qc_eqb (L 0 0)%nat (qc_make 2 1) && qc_eqb (L 1 0)%nat (qc_make 1 1) && qc_eqb (L 1 1)%nat (qc_make 2 1))%bool = true
+  | _ => False
+  end.
+Proof. vm_compute. reflexivity. Qed.
